@@ -448,7 +448,7 @@ Lemma tri_winding_pinned_degenerate_refuted :
     ~ on_polygon (tri_outline t) p /\ tri_winding_pinned t p <> poly_cast (tri_outline t) p.
 Proof.
   exists (mkTriangle (mkPoint 0 0) (mkPoint 0 0) (mkPoint 0 0)), (mkPoint 5 5). split.
-  - intros (se & Hin & _ & (Hx & _) & _).
+  - intros (se & Hin & _ & (_ & Hx) & _).
     cbn in Hin. destruct Hin as [<-|[<-|[<-|[]]]]; cbn in Hx; revert Hx; unfold Rmin, Rmax; destruct (Rle_dec 0 0); lra.
   - rewrite tri_pinned_form, tri_cast_form. unfold tri_closed, cast_K, orient, Rsignum. cbn [px py].
     dec_all; discriminate.
